@@ -31,6 +31,34 @@ var raceSupplements = map[string]func(){
 	"C12": raceC12,
 	"C07": raceC07,
 	"C10": raceC10,
+	"C05": raceC05,
+}
+
+// raceC05: logins started (and completed) by 2-16 really concurrent browsers, PKCE on.
+func raceC05() {
+	idp := world.NewIdP()
+	up := world.NewUpstream("race")
+	defer up.Close()
+	px := mustProxy(&ProxyCfg{Flags: append(baseFlags(up.URL()), "--email-domain=*", "--cookie-secure=false", "--code-challenge-method=S256", "--insecure-oidc-skip-nonce=false")})
+	for _, n := range []int{2, 4, 8, 16} {
+		var wg sync.WaitGroup
+		for g := 0; g < n; g++ {
+			wg.Add(1)
+			go func(g int) {
+				defer wg.Done()
+				for i := 0; i < 40; i++ {
+					b := newBrowser(px, "http", "app.example.com")
+					if i%4 == 0 {
+						b.Login(idp, "alice", "/app")
+					} else {
+						b.Start("/app")
+					}
+				}
+			}(g)
+		}
+		wg.Wait()
+		fmt.Printf("RACE-SUPPLEMENT C05 goroutines=%d done\n", n)
+	}
 }
 
 // raceC07: requests of all credentials on the proxied and the auth-only path, served by 2-16
